@@ -286,6 +286,12 @@ fn avrod_store(alg: &str) -> SchemaStore {
 /// the documented loop: keep a rolling buffer, `decode`, drop what was consumed, `flush` when the
 /// batch is full; a final `flush` at the end of input
 fn avrod_push(alg: &str, bs: usize, chunks: &[&[u8]]) -> Outcome {
+    avrod_push_policy(alg, bs, chunks, "f")
+}
+
+/// flush policy: `f` only when the batch is full (and at the end), `c` additionally after every
+/// chunk, `k<n>` additionally after every n-th chunk
+fn avrod_push_policy(alg: &str, bs: usize, chunks: &[&[u8]], policy: &str) -> Outcome {
     let r = std::panic::catch_unwind(std::panic::AssertUnwindSafe(|| {
         let mut d = match ReaderBuilder::new().with_writer_schema_store(avrod_store(alg)).with_batch_size(bs).build_decoder() {
             Ok(d) => d,
@@ -293,7 +299,7 @@ fn avrod_push(alg: &str, bs: usize, chunks: &[&[u8]]) -> Outcome {
         };
         let mut batches = vec![];
         let mut buf: Vec<u8> = vec![];
-        for c in chunks {
+        for (ci, c) in chunks.iter().enumerate() {
             buf.extend_from_slice(c);
             loop {
                 let n = match d.decode(&buf) {
@@ -322,6 +328,18 @@ fn avrod_push(alg: &str, bs: usize, chunks: &[&[u8]]) -> Outcome {
                     }
                 } else {
                     break; // needs more bytes (or everything was consumed)
+                }
+            }
+            let extra_flush = match policy.as_bytes()[0] {
+                b'c' => true,
+                b'k' => (ci + 1) % policy[1..].parse::<usize>().unwrap().max(1) == 0,
+                _ => false,
+            };
+            if extra_flush {
+                match d.flush() {
+                    Ok(Some(b)) => batches.push(b),
+                    Ok(None) => {}
+                    Err(_) => return Outcome { batches, verdict: "ERR:flush".into() },
                 }
             }
         }
@@ -425,58 +443,157 @@ fn cum_cuts(sizes: &[usize]) -> Vec<usize> {
     v
 }
 
-fn run_avrod(t: &[&str]) -> (String, Vec<(String, String)>) {
-    let (alg, bs, data, sizes) = (t[2], t[3].parse::<usize>().unwrap(), unhex(t[4]), parse_list::<usize>(t[5]));
-    let mut fails = vec![];
-    let given = avrod_push(alg, bs, &split(&data, &sizes));
-    let single = avrod_push(alg, bs, &[&data]);
-    let mut cmp = |name: String, o: &Outcome, cuts: Vec<usize>| {
-        if *o != single {
-            let mut tag = "oracle:chunk-dep".to_string();
-            match avrod_first_cut_in_row(alg, &data, &cuts) {
-                // a truncated varint is now "need more data"; what remains is that the fields of the
-                // row decoded before the cut are not rolled back (any cut inside a row body)
-                Some(_) => tag.push_str(" finding:avrod-partial-row"),
-                None => {}
+/// the decoded rows in order, each with its schema: `A:<id>:<hex s>` or `B:<x>` — what must not
+/// depend on chunking or on when the caller flushes (batch boundaries may)
+fn avrod_rows(o: &Outcome) -> Vec<String> {
+    let mut v = vec![];
+    for b in &o.batches {
+        let ids = b.column(0).as_any().downcast_ref::<Int64Array>().unwrap();
+        for r in 0..b.num_rows() {
+            if b.num_columns() == 2 {
+                let s = b.column(1).as_any().downcast_ref::<StringArray>().unwrap();
+                v.push(format!("A:{}:{}", ids.value(r), hex(s.value(r).as_bytes())));
+            } else {
+                v.push(format!("B:{}", ids.value(r)));
             }
-            fails.push((format!("{} {} != single-chunk {}", name, o.short(), single.short()), tag));
-        }
-    };
-    cmp("chunked".into(), &given, cum_cuts(&sizes));
-    cmp("bytewise".into(), &avrod_push(alg, bs, &data.chunks(1).collect::<Vec<_>>()), (1..=data.len()).collect());
-    for i in 0..=data.len() {
-        let o = avrod_push(alg, bs, &[&data[..i], &data[i..]]);
-        if o != single {
-            cmp(format!("split@{}", i), &o, vec![i]);
-            break;
         }
     }
-    if data.len() <= 13 && !data.is_empty() {
-        for mask in 0u32..(1 << (data.len() - 1)) {
-            let mut sz = vec![];
-            let mut cur = 1;
-            for i in 0..data.len() - 1 {
-                if mask >> i & 1 == 1 {
-                    sz.push(cur);
-                    cur = 1;
-                } else {
-                    cur += 1;
-                }
+    v
+}
+
+fn avrod_obs(o: &Outcome) -> String {
+    format!("rows={} r={}", show_list(&avrod_rows(o)), o.verdict)
+}
+
+/// end offsets of the complete frames (prefix + one row) at the front of `data`
+fn avrod_frame_ends(alg: &str, data: &[u8]) -> Vec<usize> {
+    let plen = if alg == "c" { 5 } else { 10 };
+    let fa = avrod_frames(alg, 0, &[(0, String::new())]);
+    let fb = avrod_frames(alg, 1, &[(0, String::new())]);
+    let varint = |p: usize| -> Option<(u64, usize)> {
+        let mut v = 0u64;
+        for k in 0..10 {
+            let b = *data.get(p + k)?;
+            v |= ((b & 0x7f) as u64) << (7 * k);
+            if b & 0x80 == 0 {
+                return Some((v, k + 1));
             }
-            sz.push(cur);
-            let o = avrod_push(alg, bs, &split(&data, &sz));
-            if o != single {
-                cmp(format!("partition {}", show_list(&sz)), &o, cum_cuts(&sz));
+        }
+        None
+    };
+    let mut ends = vec![];
+    let mut p = 0;
+    while p + plen <= data.len() {
+        let which = if data[p..p + plen] == fa[..plen] {
+            0
+        } else if data[p..p + plen] == fb[..plen] {
+            1
+        } else {
+            break;
+        };
+        let Some((_, l1)) = varint(p + plen) else { break };
+        let mut e = p + plen + l1;
+        if which == 0 {
+            let Some((v, l2)) = varint(e) else { break };
+            if v & 1 == 1 {
+                break; // negative length
+            }
+            e += l2 + (v >> 1) as usize;
+        }
+        if e > data.len() {
+            break;
+        }
+        ends.push(e);
+        p = e;
+    }
+    ends
+}
+
+fn sizes_from_cuts(n: usize, cuts: &[usize]) -> Vec<usize> {
+    let mut v = vec![];
+    let mut p = 0;
+    for &c in cuts {
+        v.push(c - p);
+        p = c;
+    }
+    v.push(n - p);
+    v
+}
+
+fn run_avrod(t: &[&str]) -> (String, Vec<(String, String)>) {
+    let (alg, bs, data, sizes) = (t[2], t[3].parse::<usize>().unwrap(), unhex(t[4]), parse_list::<usize>(t[5]));
+    let policy = if t.len() > 6 { t[6] } else { "f" };
+    let mut fails = vec![];
+    let n = data.len();
+    // reference: one whole frame per decode call, flush after each (then the unparsable rest)
+    let ends = avrod_frame_ends(alg, &data);
+    let ref_sizes = sizes_from_cuts(n, &ends);
+    let reference = avrod_push_policy(alg, bs, &split(&data, &ref_sizes), "c");
+    let ref_obs = avrod_obs(&reference);
+    let mut check = |name: String, o: &Outcome, cuts: Vec<usize>| {
+        for b in &o.batches {
+            if b.num_rows() > bs {
+                fails.push((format!("{}: batch of {} rows > batch_size {}", name, b.num_rows(), bs), "oracle:batch-size".to_string()));
+            }
+        }
+        let obs = avrod_obs(o);
+        if obs != ref_obs {
+            let mut tag = "oracle:chunk-dep".to_string();
+            // the fields of a row decoded before a cut inside the row body are not rolled back
+            if avrod_first_cut_in_row(alg, &data, &cuts).is_some() {
+                tag.push_str(" finding:avrod-partial-row");
+            }
+            let cut = |x: &str| if x.len() > 160 { format!("{}…", &x[..160]) } else { x.to_string() };
+            fails.push((format!("{} {} != frame-by-frame reference {}", name, cut(&obs), cut(&ref_obs)), tag));
+            return false;
+        }
+        true
+    };
+    let given = avrod_push_policy(alg, bs, &split(&data, &sizes), policy);
+    check(format!("given policy {}", policy), &given, cum_cuts(&sizes));
+    // cuts inside every frame prefix (harmless for the row decoder) + frame ends
+    let plen = if alg == "c" { 5 } else { 10 };
+    let mut prefix_cuts: Vec<usize> = vec![];
+    let mut start = 0;
+    for &e in &ends {
+        prefix_cuts.push((start + 1 + (e % (plen - 1))).min(e));
+        prefix_cuts.push(e);
+        start = e;
+    }
+    prefix_cuts.sort();
+    prefix_cuts.dedup();
+    prefix_cuts.retain(|&c| c > 0 && c < n);
+    let mut with_empty = vec![0usize];
+    for s in &ref_sizes {
+        with_empty.push(*s);
+        with_empty.push(0);
+    }
+    'pol: for pol in ["f", "c", "k2", "k3"] {
+        for (name, sz) in [
+            ("frame-aligned", ref_sizes.clone()),
+            ("all-in-one", vec![n]),
+            ("frames+empty-chunks", with_empty.clone()),
+            ("prefix-cuts", sizes_from_cuts(n, &prefix_cuts)),
+            ("two-frames-per-chunk", sizes_from_cuts(n, &ends.iter().copied().skip(1).step_by(2).filter(|&c| c < n).collect::<Vec<_>>())),
+        ] {
+            let o = avrod_push_policy(alg, bs, &split(&data, &sz), pol);
+            if !check(format!("{} policy {}", name, pol), &o, cum_cuts(&sz)) {
+                break 'pol;
+            }
+        }
+    }
+    // every 2-way split and byte-wise, policies f and c (a cut inside a row body hits the known finding)
+    for pol in ["f", "c"] {
+        for i in 0..=n {
+            let o = avrod_push_policy(alg, bs, &[&data[..i], &data[i..]], pol);
+            if !check(format!("split@{} policy {}", i, pol), &o, vec![i]) {
                 break;
             }
         }
+        let o = avrod_push_policy(alg, bs, &data.chunks(1).collect::<Vec<_>>(), pol);
+        check(format!("bytewise policy {}", pol), &o, (1..=n).collect());
     }
-    for b in &single.batches {
-        if b.num_rows() > bs {
-            fails.push((format!("batch of {} rows > batch_size {}", b.num_rows(), bs), "oracle:batch-size".into()));
-        }
-    }
-    (given.short(), fails)
+    (ref_obs, fails)
 }
 
 /// single-object / Confluent framed rows written by the real writer
@@ -504,47 +621,68 @@ fn avrod_frames(alg: &str, which: u8, rows: &[(i64, String)]) -> Vec<u8> {
 fn gen_avrod(rng: &mut Rng, fixed: Option<usize>) -> (String, String) {
     let alg = if fixed.map_or(rng.bool(), |k| k % 2 == 0) { "r" } else { "c" };
     let mut tags = vec!["op:avrod".to_string(), format!("alg:{}", alg)];
-    let mut data = vec![];
-    let segs = match fixed {
-        Some(k) => 1 + (k / 2) % 3,
-        None => rng.usize(4),
+    // the sequence of writer schemas of the frames: at least two switches in the fixed block
+    let patterns: &[&[u8]] = &[&[0, 0, 1, 1, 0], &[1, 0, 0, 1], &[0, 1, 0, 1, 0], &[0, 0, 0], &[1, 1, 0, 0, 0, 1], &[0, 1]];
+    let pattern: Vec<u8> = match fixed {
+        Some(k) => patterns[(k / 2) % patterns.len()].to_vec(),
+        None => (0..rng.usize(7)).map(|_| rng.below(2) as u8).collect(),
     };
-    let mut which = (fixed.unwrap_or(0) / 6 % 2) as u8;
-    for _ in 0..segs {
-        let n = *rng.pick(&[1usize, 1, 2, 3, 6]);
+    let mut data = vec![];
+    for &which in &pattern {
+        // one or two rows (= frames) of that schema
+        let n = if fixed.is_some() { 1 } else { 1 + rng.usize(2) };
         let rows: Vec<(i64, String)> = (0..n)
             .map(|_| (rng.pick_or(&[0, -1, 63, 64, -65, 8191, 8192, i64::MAX, i64::MIN], -1000, 1000), "z".repeat(*rng.pick(&[0usize, 1, 5, 63, 64, 130]))))
             .collect();
         data.extend(avrod_frames(alg, which, &rows));
-        if rng.bool() {
-            which ^= 1;
-            tags.push("schema-switch".into());
+    }
+    let switches = pattern.windows(2).filter(|w| w[0] != w[1]).count();
+    tags.push(format!("switches:{}", switches.min(4)));
+    if fixed.is_none() {
+        match rng.below(8) {
+            0 if !data.is_empty() => {
+                let cut = rng.usize(data.len());
+                data.truncate(cut);
+                tags.push("mut:truncated".into());
+            }
+            1 if !data.is_empty() => {
+                let i = rng.usize(data.len().min(12));
+                data[i] ^= 0x20;
+                tags.push("mut:prefix-corrupt".into());
+            }
+            _ => {}
         }
     }
-    match rng.below(8) {
-        0 if !data.is_empty() => {
-            let cut = rng.usize(data.len());
-            data.truncate(cut);
-            tags.push("mut:truncated".into());
-        }
-        1 if !data.is_empty() => {
-            let i = rng.usize(data.len().min(12));
-            data[i] ^= 0x20;
-            tags.push("mut:prefix-corrupt".into());
-        }
-        _ => {}
-    }
-    let bs = *rng.pick(&[1usize, 2, 3, 5, 1024]);
+    let bs = match fixed {
+        Some(k) => [1usize, 2, 3, 1024][(k / 12) % 4],
+        None => *rng.pick(&[1usize, 2, 3, 5, 1024]),
+    };
+    let policy = match fixed {
+        Some(k) => ["f", "c", "k2", "k3"][(k / 3) % 4].to_string(),
+        None => (*rng.pick(&["f", "f", "c", "k2", "k3"])).to_string(),
+    };
+    tags.push(format!("flush:{}", policy));
     let n = data.len();
-    let mut cuts: Vec<usize> = (0..rng.usize(7)).map(|_| rng.usize(n + 1)).collect();
-    cuts.sort();
-    let mut sizes = vec![];
-    let mut p = 0;
-    for c in cuts {
-        sizes.push(c - p);
-        p = c;
+    // chunking of the line: frame boundaries (some dropped, some doubled = empty chunk), sometimes
+    // one extra cut anywhere
+    let ends = avrod_frame_ends(alg, &data);
+    let mut cuts: Vec<usize> = vec![];
+    for &e in &ends {
+        match rng.below(4) {
+            0 => {}
+            1 => {
+                cuts.push(e);
+                cuts.push(e);
+            }
+            _ => cuts.push(e),
+        }
     }
-    sizes.push(n - p);
+    if fixed.is_none() && rng.chance(1, 3) && n > 0 {
+        cuts.push(rng.usize(n + 1));
+    }
+    cuts.retain(|&c| c <= n);
+    cuts.sort();
+    let sizes = sizes_from_cuts(n, &cuts);
     if sizes.iter().filter(|&&s| s > 0).count() >= 2 {
         tags.push("nt".into());
     }
@@ -552,7 +690,10 @@ fn gen_avrod(rng: &mut Rng, fixed: Option<usize>) -> (String, String) {
         tags.push("fixed-block".into());
     }
     tags.push(format!("bs:{}", if bs > 5 { "large".to_string() } else { bs.to_string() }));
-    (format!("C14 avrod {} {} {} {}", alg, bs, hex(&data), show_list(&sizes)), tags.join(" "))
+    let plen = if alg == "c" { 5 } else { 10 };
+    let pa = avrod_frames(alg, 0, &[(0, String::new())])[..plen].to_vec();
+    let pb = avrod_frames(alg, 1, &[(0, String::new())])[..plen].to_vec();
+    (format!("C14 avrod {} {} {} {} {} {} {}", alg, bs, hex(&data), show_list(&sizes), policy, hex(&pa), hex(&pb)), tags.join(" "))
 }
 
 // ---------------------------------------------------------------------------------------- Flight
@@ -869,7 +1010,7 @@ fn main() {
         let n = n_cases(&args, 400, 8000);
         // fixed deterministic block (same in every run), then the random cases
         let mut fixed_rng = Rng::new(0xC14F);
-        for k in 0..24 {
+        for k in 0..48 {
             let (line, tags) = gen_avrod(&mut fixed_rng, Some(k));
             emit(&mut sink, line, tags);
         }
